@@ -488,6 +488,11 @@ let check_tokens (cfg : econfig) (ops : eop list) (tr : tok list) : unit =
        if List.exists (function TApi z -> zi z = -4 | _ -> false) seg then bad "C11" "a receiver or sender was still open after Stop had returned";
        if List.exists (function TApi z -> zi z = -5 | _ -> false) seg then bad "C11" "Stop returned while a background process of the instance had not shut down"
      end);
+    (* every property of the engine (C11 "act under their role", C20 "ends when the workflow stops" in particular): once the workflow's
+       context is cancelled every process ends and Stop returns; a process that sleeps or waits on something outside that context
+       keeps Stop from returning (the harness gives up after 5 s of real time: API=-7) *)
+    (if List.exists (function TApi z -> zi z = -7 | _ -> false) seg then
+       bad (if on "C11" then "C11" else prop) "Stop did not return: a background process does not end when the workflow stops (it waits on something that is not under the workflow's context)");
     (* C02: "a function that returns an undeclared destination changes nothing ... and the caller (Callback) or the retry loop
        (background consumers) sees an error": the event of a step whose function returned an undeclared, non-skip destination
        is not acknowledged; a Callback whose function did so returns an error *)
